@@ -195,7 +195,7 @@ func ruleTrimCollinear(rule string) func(*Ctx) {
 		c.floor(rule+".wrap", pro, 2)
 		// open paths keep their last point unconditionally
 		{
-			ex := &explorer{c: c, f: f, atoms: map[string]absVal{"isOpen": boolVal(true)}, stop: func(b *ssa.BasicBlock) bool { return main.blocks[b] }}
+			ex := &explorer{c: c, f: f, atoms: map[string]absVal{"isOpen": boolVal(true)}, stop: func(b *ssa.BasicBlock) bool { return main.blocks[b] }, canon: canonParams(f, "path", "isOpen")}
 			// explore from the first block after the main loop: the exit successor of the header
 			var exit *ssa.BasicBlock
 			for _, s := range main.header.Succs {
@@ -346,7 +346,7 @@ func ruleSimplify(rule string) func(*Ctx) {
 			}
 			for _, closed := range []bool{false, true} {
 				ml := mainL
-				ex := &explorer{c: c, f: f, atoms: map[string]absVal{"isClosedPath": boolVal(closed)}, maxPaths: 60000,
+				ex := &explorer{c: c, f: f, atoms: map[string]absVal{"isClosedPath": boolVal(closed)}, maxPaths: 60000, canon: canonParams(f, "path", "epsilon", "isClosedPath"),
 					stop: func(b *ssa.BasicBlock) bool { return !ml.blocks[b] }}
 				outs := ex.explore(mainL.header)
 				if ex.overflow {
@@ -400,7 +400,7 @@ func ruleSimplify(rule string) func(*Ctx) {
 			}
 			// init of the end cells for open paths
 			{
-				outs := (&explorer{c: c, f: f, atoms: map[string]absVal{"isClosedPath": boolVal(false)}, atomFn: func(e string) (absVal, bool) {
+				outs := (&explorer{c: c, f: f, atoms: map[string]absVal{"isClosedPath": boolVal(false)}, canon: canonParams(f, "", "epsilon", "isClosedPath"), atomFn: func(e string) (absVal, bool) {
 					if e == "len("+path.Name()+")" {
 						return intVal(9), true
 					}
